@@ -559,6 +559,144 @@ pub fn positions(proto: Proto) -> Vec<Pos> {
     v
 }
 
+// ---------------------------------------------------------------------------------------------
+// TLS acceptor: connections whose TLS handshake is unfinished, or finished and idle, at the signal
+// ---------------------------------------------------------------------------------------------
+
+#[derive(Clone, Copy, Debug, PartialEq, Eq, Hash)]
+pub enum TlsStage {
+    /// connected, not a byte sent
+    NoBytes,
+    /// this many bytes of a ClientHello sent
+    HelloPrefix(usize),
+    /// handshake complete, no request yet
+    HandshakeDoneIdle,
+    /// one keep-alive exchange complete (HTTP/1 only)
+    ExchangeDoneIdle,
+}
+
+pub const TLS_STAGES: [TlsStage; 7] = [TlsStage::NoBytes, TlsStage::HelloPrefix(1), TlsStage::HelloPrefix(5), TlsStage::HelloPrefix(60), TlsStage::HelloPrefix(usize::MAX), TlsStage::HandshakeDoneIdle, TlsStage::ExchangeDoneIdle];
+
+fn client_hello(alpn: &[&str]) -> Vec<u8> {
+    let cfg = client_tls(alpn);
+    let mut c = rustls::ClientConnection::new(Arc::new(cfg), rustls::pki_types::ServerName::try_from("a.test").unwrap()).unwrap();
+    let mut out = Vec::new();
+    while c.wants_write() {
+        if c.write_tls(&mut out).is_err() {
+            break;
+        }
+    }
+    out
+}
+
+enum TlsConn {
+    Raw(hyperdriver::stream::duplex::DuplexStream),
+    Tls(Box<tokio_rustls::client::TlsStream<hyperdriver::stream::duplex::DuplexStream>>),
+}
+
+pub async fn run_tls_case(proto: Proto, stages: &[TlsStage]) -> Vec<(String, String)> {
+    let mut problems: Vec<(String, String)> = Vec::new();
+    let log = Arc::new(Log::default());
+    let gates = Gates::default();
+    let alpn: &[&str] = match proto {
+        Proto::H1 => &["http/1.1"],
+        Proto::H2 => &["h2"],
+        Proto::Auto => &["http/1.1"],
+    };
+    PARK_COMPLETED_SERVER.with(|p| p.set(true));
+    let mut server = spawn_server(ServerSpec { id: 0, proto, net: Net::Duplex(65_536), tls: Some(Arc::new(server_tls("good", alpn))), graceful: true, sni_validation: false }, log.clone(), gates.clone()).await;
+    let Target::Duplex(dclient, _) = server.target.clone() else { unreachable!() };
+    let hello = client_hello(alpn);
+    let mut conns: Vec<(TlsStage, TlsConn)> = Vec::new();
+    for (k, st) in stages.iter().enumerate() {
+        let mut io = match dclient.connect(65_536).await {
+            Ok(io) => io,
+            Err(e) => {
+                problems.push(("tls:connect-before-signal-failed".into(), format!("{e}")));
+                continue;
+            }
+        };
+        quiesce().await;
+        match st {
+            TlsStage::NoBytes => conns.push((*st, TlsConn::Raw(io))),
+            TlsStage::HelloPrefix(n) => {
+                let n = (*n).min(hello.len() - 1);
+                let _ = io.write_all(&hello[..n]).await;
+                conns.push((*st, TlsConn::Raw(io)));
+            }
+            TlsStage::HandshakeDoneIdle | TlsStage::ExchangeDoneIdle => {
+                let name = rustls::pki_types::ServerName::try_from("a.test").unwrap();
+                let mut tls = match tokio_rustls::TlsConnector::from(Arc::new(client_tls(alpn))).connect(name, io).await {
+                    Ok(t) => t,
+                    Err(e) => {
+                        problems.push(("tls:handshake-before-signal-failed".into(), format!("{e}")));
+                        continue;
+                    }
+                };
+                if *st == TlsStage::ExchangeDoneIdle && proto != Proto::H2 {
+                    let (head, body) = h1_request(700 + k as u64, 20, None, true);
+                    let _ = tls.write_all(&head).await;
+                    let _ = tls.write_all(&body).await;
+                    let _ = tls.flush().await;
+                    quiesce().await;
+                    let mut got = Vec::new();
+                    let mut buf = [0u8; 4096];
+                    while let Ok(Ok(n)) = tokio::time::timeout(Duration::from_millis(20), tls.read(&mut buf)).await {
+                        if n == 0 {
+                            break;
+                        }
+                        got.extend_from_slice(&buf[..n]);
+                    }
+                    if !parse_h1_response(&got).map(|p| p.complete).unwrap_or(false) {
+                        problems.push(("tls:exchange-before-signal-incomplete".into(), format!("{} bytes received", got.len())));
+                    }
+                }
+                conns.push((*st, TlsConn::Tls(Box::new(tls))));
+            }
+        }
+        quiesce().await;
+    }
+    if let Some(tx) = server.shutdown.take() {
+        let _ = tx.send(());
+    }
+    quiesce().await;
+    match tokio::time::timeout(Duration::from_secs(600), &mut server.join).await {
+        Err(_) => problems.push(("tls:server-future-not-resolved-after-signal".into(), "the serving future is still pending at quiescence after the shutdown signal (every connection is idle or still in its TLS handshake)".into())),
+        Ok(Err(e)) => problems.push(("tls:server-task-panicked".into(), format!("{e}"))),
+        Ok(Ok(Err(e))) => problems.push(("tls:server-future-resolved-with-error".into(), e)),
+        Ok(Ok(Ok(()))) => {}
+    }
+    quiesce().await;
+    for (st, c) in conns.iter_mut() {
+        let mut buf = [0u8; 4096];
+        let mut closed = false;
+        loop {
+            let r = match c {
+                TlsConn::Raw(io) => tokio::time::timeout(Duration::from_millis(20), io.read(&mut buf)).await,
+                TlsConn::Tls(io) => tokio::time::timeout(Duration::from_millis(20), io.read(&mut buf)).await,
+            };
+            match r {
+                Ok(Ok(0)) | Ok(Err(_)) => {
+                    closed = true;
+                    break;
+                }
+                Ok(Ok(_)) => {}
+                Err(_) => break,
+            }
+        }
+        if !closed {
+            problems.push((format!("tls:connection-not-closed-after-shutdown:{}", match st { TlsStage::NoBytes | TlsStage::HelloPrefix(_) => "handshake-unfinished", TlsStage::HandshakeDoneIdle => "handshake-done-idle", TlsStage::ExchangeDoneIdle => "keep-alive-idle" }), format!("connection in stage {st:?} is still open at quiescence after the signal")));
+        }
+    }
+    let (sp, fin) = (server.exec.spawned.load(Ordering::SeqCst), server.exec.finished.load(Ordering::SeqCst));
+    if sp != fin {
+        problems.push(("tls:connection-tasks-left-running".into(), format!("{sp} connection tasks spawned, {fin} finished at quiescence after the signal")));
+    }
+    PARK_COMPLETED_SERVER.with(|p| p.set(false));
+    PARKED.with(|l| l.borrow_mut().clear());
+    problems
+}
+
 pub fn run(args: &Args) -> Report {
     let mut cases = Vec::new();
     if let Some(path) = &args.replay {
@@ -622,6 +760,38 @@ pub fn run(args: &Args) -> Report {
             p.sample(json!({"case": case.to_json(), "outcome": "server future Ok, in-flight exchanges complete, connections closed, tasks finished"}));
         }
     });
+    // TLS acceptor
+    let replay_tls: Option<Value> = args.replay.as_ref().map(|p| serde_json::from_str::<Value>(&std::fs::read_to_string(p).unwrap()).unwrap()["replay"].clone());
+    let mut tcases: Vec<(Proto, Vec<TlsStage>)> = Vec::new();
+    // HTTP/2-only servers are left out: hyper's HTTP/2 server defers a graceful shutdown until the client preface has
+    // arrived (upstream behaviour, the same reason the plain sweep has no byte-less positions for them)
+    for proto in [Proto::H1, Proto::Auto] {
+        for a in TLS_STAGES {
+            tcases.push((proto, vec![a]));
+            for b in TLS_STAGES {
+                tcases.push((proto, vec![a, b]));
+            }
+        }
+    }
+    let tjson = |c: &(Proto, Vec<TlsStage>)| json!({"engine": "shutdown", "tls": true, "proto": format!("{:?}", c.0), "stages": c.1.iter().map(|s| format!("{s:?}")).collect::<Vec<_>>()});
+    match &replay_tls {
+        Some(r) if r["tls"] == true => tcases.retain(|c| tjson(c) == *r),
+        Some(_) => tcases.clear(),
+        None => {}
+    }
+    let tr = &tcases;
+    let part = crate::report::parallel(args.threads, tcases.len() as u64, "shutdown", |i, r| {
+        let c = &tr[i as usize];
+        let rt = tokio::runtime::Builder::new_current_thread().enable_all().start_paused(true).build().unwrap();
+        let problems = rt.block_on(run_tls_case(c.0, &c.1));
+        let p = r.prop("C07", RULE);
+        p.eval(Some(hash_of(&format!("{}", tjson(c)))));
+        p.count("worlds_tls_acceptor", 1);
+        for (sig, msg) in problems {
+            p.violation(sig, format!("{msg} | case {}", tjson(c)), tjson(c));
+        }
+    });
+    rep.merge(part);
     if let Some(p) = rep.props.get_mut("C07") {
         p.exhaustive = Some(false);
         p.assume("in-memory duplex acceptor and paused clock: 'at quiescence' is exact; TCP/Unix acceptors share the code path above the Accept trait and are exercised by the fault engine");
